@@ -41,6 +41,9 @@ type WireCfg struct {
 	NTypes   int  // number of post-header length entries in the FDE
 	SrvVer   string
 	ServerID uint32
+	// SizesFill != 0: the post-header lengths of the event types the harness does not write itself are arbitrary non-zero
+	// values (a format description may describe any type with any header size)
+	SizesFill byte
 }
 
 func (c WireCfg) postHeaderLens() []byte {
@@ -49,6 +52,11 @@ func (c WireCfg) postHeaderLens() []byte {
 		n = 35
 	}
 	h := make([]byte, n)
+	if c.SizesFill != 0 {
+		for i := range h {
+			h[i] = byte(1 + (i*7+int(c.SizesFill))%200)
+		}
+	}
 	set := func(typ int, v byte) {
 		if typ-1 < n {
 			h[typ-1] = v
